@@ -208,6 +208,20 @@ def build_app(variant=0):
             return "bad session"
         return "user=%s" % sess.data.get("user")
 
+    @app.route("/visit")
+    def visit(req):
+        # the documented use of a session: load it, change its data, send it back
+        sess = PoorSession(app.secret_key)
+        try:
+            sess.load(req.cookies)
+        except Exception as err:     # noqa
+            return "bad session"
+        sess.data["n"] = sess.data.get("n", 0) + 1
+        sess.data.setdefault("seen", []).append(req.args.getfirst("p", "-"))
+        res = Response("visit %s %s" % (sess.data["n"], sess.data["seen"]))
+        sess.header(res.headers)
+        return res
+
     @app.route("/admin")
     @check_digest("Zone")
     def admin(req):
@@ -293,12 +307,14 @@ def digest_header(uri, method="GET", password="pw", legacy=None):
             'qop=auth, nc=00000001, cnonce="cn"' % (nonce, uri, resp, opaque))
 
 
-def session_cookie():
+def session_cookie(visits=False):
     from poorwsgi.session import PoorSession
     from poorwsgi.headers import Headers
     import poorwsgi.session as S
     sess = PoorSession("c17-secret", max_age=60)
     sess.data["user"] = "carol"
+    if visits:
+        sess.data.update(n=1, seen=["start"])
     return sess.header()[0][1].split(";")[0]
 
 
@@ -347,6 +363,9 @@ KINDS = {
     "login": lambda: env_of(path="/login", query="u=bob"),
     "whoami": lambda: env_of(path="/whoami", headers={"Cookie": session_cookie()}),
     "whoami-none": lambda: env_of(path="/whoami"),
+    "visit": lambda: env_of(path="/visit", query="p=a", headers={"Cookie": session_cookie(True)}),
+    "visit2": lambda: env_of(path="/visit", query="p=b", headers={"Cookie": session_cookie(True)}),
+    "visit-none": lambda: env_of(path="/visit"),
     "redirect": lambda: env_of(path="/redirect", query="x=1"),
     "empty": lambda: env_of(path="/empty"),
     "jsonres": lambda: env_of(path="/json", query="q=1"),
@@ -616,7 +635,8 @@ def generate(rng, tier):
     # interleavings
     inter = ["hit", "hit2", "stream", "stream2", "crash", "abort403", "form", "json", "debug-info", "auth-none", "auth-ok",
              "item", "item2", "item", "item2", "abort418", "raw", "404", "range", "login", "static", "listing", "hit-post",
-             "badjson", "norange", "range-multi", "range-bad", "file", "static-head", "redirect", "jsonres", "empty"]
+             "badjson", "norange", "range-multi", "range-bad", "file", "static-head", "redirect", "jsonres", "empty",
+             "visit", "visit2", "whoami"]
     for _ in range(2500 if big else 200):
         k = rng.choice([2, 2, 3])
         kinds = [rng.choice(inter) for _ in range(k)]
